@@ -1,9 +1,10 @@
 (* C09 — Full-sync responses are complete, causally ordered and size-bounded.
    Only property theorems (closed by [exact]), non-vacuity examples and Print Assumptions.
    Model: Model/LoadIter.v (NextBatch in its repaired form, fixes/C09-batch-heads.patch); proofs: Proofs/LoadIter.v, Proofs/LoadIterHeads.v. *)
-From Coq Require Import List NArith Bool Arith.
+From Coq Require Import List NArith Bool Arith QArith.
 Import ListNotations.
 From AnySync Require Import Lib.Dag Model.Dfs Model.Tree Model.LoadIter Proofs.LoadIter Proofs.LoadIterHeads Proofs.DfsTopo.
+From AnySync Require Import Model.OrderIds Model.OrderIdsQ Proofs.OrderIdsFill Proofs.OrderIds Proofs.OrderIdsQ Proofs.OrderIdsStore.
 Open Scope N_scope.
 
 (* The batches, concatenated, are EXACTLY the responder's stored sequence from the common snapshot on with the
@@ -110,8 +111,8 @@ Print Assumptions c09_model_heads_meet_spec.
 (* Bridge to C06.  C06 models (and compares on every step) the stored order of a replica as the canonical order of its
    stored set.  A stored sequence that IS that order of an acyclic set — previous ids of the root change outside it — has
    pairwise different ids and is a linear extension: the hypotheses of c09_causal and c09_heads_childless.  (What is not
-   modelled is that the lexid order ids assigned by the object tree realise this order; the script worlds of the harness
-   exercise it.) *)
+   modelled HERE is that the lexid order ids assigned by the object tree realise this order: that is proved at the end of
+   this file, c09_oid_store_is_causal, for stores produced by Tree.Add / AddFast / local adds.) *)
 Theorem c09_canonical_store_is_causal : forall S root rk sigma,
   acyclic_by rk (view S root) ->
   map se_id sigma = order S root ->
@@ -124,9 +125,9 @@ Print Assumptions c09_canonical_store_is_causal.
 (* PARTIAL (model meets spec).  The full statement
      forall G sigma ourPath theirPath theirHeads haveB maxSize finalB, honest inputs ->
        spec_C09 G sigma ... (ids and heads of (respond ...)) finalB = true
-   needs the linear-extension property of the STORED order (hypothesis of c09_causal / c09_heads_childless; C06 proves it
-   for the canonical order of an acyclic set, c06_topological, but the lexid order ids that realise the stored order are
-   not modelled), the translation of the remaining Prop-level statements above into the executable conjuncts of spec_C09
+   needs the linear-extension property of the STORED order (hypothesis of c09_causal / c09_heads_childless; now PROVED for stores
+   produced by Tree.Add / AddFast / local adds with lexid order ids: c09_oid_store_is_causal, c09_causal_for_oid_stores,
+   c09_heads_childless_for_oid_stores at the end of this file; not for the reduce / rebuild-from-storage paths of the object tree), the translation of the remaining Prop-level statements above into the executable conjuncts of spec_C09
    (done for the heads conjunct: c09_model_heads_meet_spec), and the requester-side apply (C01).  Proved instead: the declarative components above, and the closed instance below. *)
 
 (* ---- non-vacuity and the legacy behaviour (finding F16): tree 1 -> 2, 1 -> 3 -> 4, limit 150 ---- *)
@@ -166,3 +167,88 @@ Example c09_heads_legacy_refuted :
     spec_C09 f16_G sigma ourPath theirPath theirHeads [1] maxSize
       (obs_of_batches (respond_legacy sigma ourPath theirPath theirHeads maxSize)) [1; 2; 3; 4] = false.
 Proof. exists f16_sigma, [1], [1], [1], 150. vm_compute. split; reflexivity. Qed.
+
+(* ================================================================ the stored order, discharged ================================================================
+
+   c09_causal and c09_heads_childless take "the stored sequence is a linear extension with pairwise different ids" as a
+   hypothesis.  For a responder whose store was produced by Tree.Add / Tree.AddFast / local adds from the empty tree
+   (Model/OrderIds.v: the lexid order ids given by updateHeads' gap filling and by AddContent; [store_of ops sigma]:
+   sigma = the attached changes in order-id order, as Storage.GetAfterOrder streams them) the hypothesis is a THEOREM
+   (Proofs/OrderIds.v, Proofs/OrderIdsStore.v; C06: c06_storage_order_eq).  Visible hypotheses: the lexid laws
+   (satisfiable: c06_oid_laws_satisfiable), one rank for the attached sets along the history ([hist_acyclic]), every
+   attached change other than the root has a previous id ([wf_prev]) and the root has none. *)
+Theorem c09_oid_store_is_causal : forall oid oltb first_id next_id between, lexid_laws oid oltb next_id between ->
+  forall ops rk sigma,
+  hist_acyclic oid first_id next_id between rk ops ->
+  t_att (it_tree oid (irun oid first_id next_id between ops)) <> [] ->
+  wf_prev (it_tree oid (irun oid first_id next_id between ops)) ->
+  store_of oid oltb first_id next_id between ops sigma ->
+  NoDup (map se_id sigma) /\ lin_ext sigma /\ (forall e, In e sigma -> ~ In (se_id e) (cprev (se_ch e))).
+Proof.
+  exact (fun oid oltb f n b L => oid_store_lin_ext oid oltb f n b (proj1 L) (proj1 (proj2 L)) (proj1 (proj2 (proj2 L))) (proj2 (proj2 (proj2 L)))).
+Qed.
+Print Assumptions c09_oid_store_is_causal.
+
+(* c09_causal for such a store: changes are sent after their previous changes — no assumption on the stored order left *)
+Theorem c09_causal_for_oid_stores : forall oid oltb first_id next_id between, lexid_laws oid oltb next_id between ->
+  forall ops rk sigma ourPath theirPath theirHeads maxSize bs,
+  hist_acyclic oid first_id next_id between rk ops ->
+  t_att (it_tree oid (irun oid first_id next_id between ops)) <> [] ->
+  wf_prev (it_tree oid (irun oid first_id next_id between ops)) ->
+  store_of oid oltb first_id next_id between ops sigma ->
+  respond sigma ourPath theirPath theirHeads maxSize = Some bs ->
+  lin_ext (concat (map b_changes bs)).
+Proof.
+  exact (fun oid oltb f n b L => oid_store_response_causal oid oltb f n b (proj1 L) (proj1 (proj2 L)) (proj1 (proj2 (proj2 L))) (proj2 (proj2 (proj2 L)))).
+Qed.
+Print Assumptions c09_causal_for_oid_stores.
+
+(* c09_heads_childless for such a store: every response is a heads_trace *)
+Theorem c09_heads_childless_for_oid_stores : forall oid oltb first_id next_id between, lexid_laws oid oltb next_id between ->
+  forall ops rk sigma ourPath theirPath theirHeads maxSize bs cs,
+  hist_acyclic oid first_id next_id between rk ops ->
+  t_att (it_tree oid (irun oid first_id next_id between ops)) <> [] ->
+  wf_prev (it_tree oid (irun oid first_id next_id between ops)) ->
+  store_of oid oltb first_id next_id between ops sigma ->
+  respond sigma ourPath theirPath theirHeads maxSize = Some bs ->
+  choose_snapshot ourPath theirPath = Some cs ->
+  heads_trace (removed_of sigma cs theirHeads) (from_id cs sigma) [] bs.
+Proof.
+  exact (fun oid oltb f n b L => oid_store_response_heads oid oltb f n b (proj1 L) (proj1 (proj2 L)) (proj1 (proj2 (proj2 L))) (proj2 (proj2 (proj2 L)))).
+Qed.
+Print Assumptions c09_heads_childless_for_oid_stores.
+
+(* non-vacuity: the tree of finding F16 (1 -> 2, 1 -> 3 -> 4) built by two deliveries, then a LOCAL merge 9 of the heads
+   {2, 4}; its store in order-id order is 1 2 3 4 9 and satisfies [store_of] (rationals as order ids) *)
+Definition oid_ops9 : list iop :=
+  [IAdd [mkChange 1 [] 0 true; mkChange 3 [1] 1 false]; IAdd [mkChange 4 [3] 1 false; mkChange 2 [1] 1 false]; ILocal 9].
+Definition oid_sigma9 : list sentry :=
+  [mkSE (mkChange 1 [] 0 true) 63; mkSE (mkChange 2 [1] 1 false) 107; mkSE (mkChange 3 [1] 1 false) 107;
+   mkSE (mkChange 4 [3] 1 false) 107; mkSE (mkChange 9 [2; 4] 1 false) 120].
+
+Ltac vm_list_in9 H :=
+  match type of H with In _ ?V => let v := eval vm_compute in V in replace V with v in H by (vm_compute; reflexivity) end.
+
+Example c09_oid_nonvacuous :
+  hist_acyclic Q q_first q_next q_between (fun i => N.to_nat i) oid_ops9 /\
+  t_att (it_tree Q (qrun oid_ops9)) <> [] /\ wf_prev (it_tree Q (qrun oid_ops9)) /\
+  store_of Q qltb q_first q_next q_between oid_ops9 oid_sigma9 /\
+  qstored (qrun oid_ops9) = [1; 2; 3; 4; 9].
+Proof.
+  split; [|split; [|split; [|split]]].
+  - unfold hist_acyclic, oid_ops9. cbn [acyclic_along].
+    do 3 (split; [intros c p Hc Hp; vm_list_in9 Hc; cbn [In] in Hc;
+      repeat (destruct Hc as [Hc|Hc];
+              [subst c; cbn [cprev In] in Hp; repeat (destruct Hp as [Hp|Hp]; [subst p; vm_compute; repeat constructor|]); destruct Hp|]);
+      destruct Hc|]). exact I.
+  - match goal with |- ?A <> _ => let v := eval vm_compute in A in replace A with v by (vm_compute; reflexivity) end. discriminate.
+  - intros c Hc. vm_list_in9 Hc. cbn [In] in Hc. repeat (destruct Hc as [Hc|Hc]; [subst c; cbn [cprev]; discriminate|]). destruct Hc.
+  - unfold store_of. cbn zeta. split; [vm_compute; reflexivity|].
+    replace (t_root (it_tree Q (irun Q q_first q_next q_between oid_ops9))) with 1 by (vm_compute; reflexivity).
+    replace (t_att (it_tree Q (irun Q q_first q_next q_between oid_ops9)))
+      with [mkChange 9 [2; 4] 1 false; mkChange 2 [1] 1 false; mkChange 4 [3] 1 false; mkChange 3 [1] 1 false; mkChange 1 [] 0 true]
+      by (vm_compute; reflexivity).
+    split; intros e He; cbn [oid_sigma9 In] in He;
+      repeat (destruct He as [He|He]; [subst e; cbn; intuition (try discriminate; auto)|]); destruct He.
+  - vm_compute. reflexivity.
+Qed.
